@@ -206,6 +206,33 @@ pub fn check(_ctx: &Ctx, input: &Input) -> CaseResult {
             return Ok(out);
         }
     }
+    // the output of parse > GC > emit is walrus's own output as well: it is
+    // repeatable on the same Module and a fixpoint of the round trip
+    if let Ok(Ok(mut mg)) = wal::parse(&p.bytes, &cfg) {
+        if wal::gc(&mut mg).is_ok() {
+            if let Ok(g1) = wal::emit(&mut mg) {
+                if let Ok(g2) = wal::emit(&mut mg) {
+                    if g2 != g1 {
+                        return Err(Failure::new(
+                            format!("repeat-emit-differs:after-gc:{}", first_diff(&g1, &g2)),
+                            format!("second emit after GC differs from the first ({} vs {} bytes) [{}]", g2.len(), g1.len(), p.origin),
+                        ));
+                    }
+                }
+                if let Ok(Ok(mut m5)) = wal::parse(&g1, &cfg) {
+                    if let Ok(g3) = wal::emit(&mut m5) {
+                        if g3 != g1 {
+                            return Err(Failure::new(
+                                format!("not-a-fixpoint:after-gc:{}", first_diff(&g1, &g3)),
+                                format!("out = emit(gc(parse(in))); emit(parse(out)) != out ({} vs {} bytes) [{}]", g3.len(), g1.len(), p.origin),
+                            ));
+                        }
+                        out.label("gc-output-fixpoint-compared");
+                    }
+                }
+            }
+        }
+    }
     let secs = raw_sections(&p.bytes).unwrap_or_default();
     let n_custom = secs.iter().filter(|s| s.id == 0).count();
     let d = crate::decode::decode(&p.bytes).ok();
@@ -223,7 +250,7 @@ pub fn check(_ctx: &Ctx, input: &Input) -> CaseResult {
 fn run(ctx: &Ctx) {
     let plans = [GenPlan {
         gen: "full-nobig",
-        cases: ctx.tier.pick(20_000, 400_000),
+        cases: ctx.tier.pick(100_000, 1_000_000),
         min_len: 0,
         max_len: ctx.tier.pick(1200, 3000),
     }];
